@@ -81,15 +81,18 @@ theorem seek_self (s : S) (t : Nat) (h : t ≤ s.doc) : s.seek t = s := by
   unfold TS.seek; rw [if_pos h]
 
 theorem align_total (pd : Nat) (hpd : pd < T) : ∀ (i : Nat) (arr : List S), i ≤ arr.length →
-    SortedByDoc arr → (∀ x, x ∈ arr → WFT x) → (∀ x, x ∈ arr → JOK pd x) →
+    SortedByDoc arr → (∀ x, x ∈ arr → WFC x) → (∀ x, x ∈ arr → JOK pd x) →
     (∀ y, y ∈ arr.take i → y.doc ≤ pd) → (∀ y, y ∈ arr.drop i → pd ≤ y.doc) →
     ∀ arr2 b, alignScorers arr pd i = (arr2, b) →
-      (∀ x, x ∈ arr2 → WFT x) ∧ (∀ x, x ∈ arr2 → JOK pd x) ∧ (∀ d, massLe arr2 d ≤ massLe arr d) ∧
-        lenSum arr2 ≤ lenSum arr ∧ (b = false → SortedByDoc arr2 ∧ lenSum arr2 < lenSum arr)
+      (∀ x, x ∈ arr2 → WFC x) ∧ (∀ x, x ∈ arr2 → JOK pd x) ∧ (∀ d, massLe arr2 d ≤ massLe arr d) ∧
+        lenSum arr2 ≤ lenSum arr ∧ (b = false → SortedByDoc arr2 ∧ lenSum arr2 < lenSum arr) ∧
+        (b = true → arr2.length = arr.length ∧ (∀ k, k < i → ∃ s, arr2[k]? = some s ∧ s.doc = pd) ∧
+          arr2.drop i = arr.drop i)
   | 0, arr, _, _, hwf, hj, _, _, arr2, b, h => by
     simp only [alignScorers, Prod.mk.injEq] at h
     obtain ⟨rfl, rfl⟩ := h
-    exact ⟨hwf, hj, fun _ => Nat.le_refl _, Nat.le_refl _, fun hb => by cases hb⟩
+    exact ⟨hwf, hj, fun _ => Nat.le_refl _, Nat.le_refl _, (fun hb => by cases hb),
+      fun _ => ⟨rfl, fun k hk => absurd hk (Nat.not_lt_zero k), rfl⟩⟩
   | i + 1, arr, hi, hs, hwf, hj, htake, hdrop, arr2, b, h => by
     have hlt : i < arr.length := by omega
     unfold alignScorers at h
@@ -107,9 +110,9 @@ theorem align_total (pd : Nat) (hpd : pd < T) : ∀ (i : Nat) (arr : List S), i 
       unfold JOK at this
       rwa [Nat.max_eq_right hsdoc] at this
     -- the sought scorer
-    have h1 : s.doc ≤ (s.seek pd).doc := seek_doc_ge s hsw.wf pd
-    have h2 : pd ≤ (s.seek pd).doc := seek_doc_ge_target s hsw.wf pd (by omega)
-    have hwf' : ∀ x, x ∈ arr.set i (s.seek pd) → WFT x := by
+    have h1 : s.doc ≤ (s.seek pd).doc := seek_doc_ge s hsw pd
+    have h2 : pd ≤ (s.seek pd).doc := seek_doc_ge_target s hsw pd (by omega)
+    have hwf' : ∀ x, x ∈ arr.set i (s.seek pd) → WFC x := by
       intro x hx
       rcases mem_of_set hx with rfl | hx
       · exact hsw.seek pd
@@ -124,7 +127,7 @@ theorem align_total (pd : Nat) (hpd : pd < T) : ∀ (i : Nat) (arr : List S), i 
     have hmass' : ∀ d, massLe (arr.set i (s.seek pd)) d ≤ massLe arr d :=
       fun d => massLe_set_le hget _ (seek_maxScore s pd) h1 d
     have hlen' := lenSum_set hget (s.seek pd)
-    have hlenle := seek_len_le s hsw.wf pd
+    have hlenle := seek_len_le s hsw pd
     split at h
     · -- jumped over the pivot
       rename_i hne
@@ -134,7 +137,7 @@ theorem align_total (pd : Nat) (hpd : pd < T) : ∀ (i : Nat) (arr : List S), i 
         rcases Nat.lt_or_ge s.doc pd with hlt' | hge
         · exact hlt'
         · exfalso; apply hne; rw [seek_self s pd hge]; omega
-      have hstrict := seek_len_lt s hsw.wf pd hslt (by omega)
+      have hstrict := seek_len_lt s hsw pd hslt (by omega)
       have hwithout : SortedByDoc ((arr.set i (s.seek pd)).take i ++ (arr.set i (s.seek pd)).drop (i + 1)) := by
         rw [take_set_of_le (Nat.le_refl _), drop_set_of_lt (by omega)]
         exact sorted_without hs i
@@ -145,7 +148,7 @@ theorem align_total (pd : Nat) (hpd : pd < T) : ∀ (i : Nat) (arr : List S), i 
         have hsub : ∀ x, x ∈ restoreOrdering (swapRemove (arr.set i (s.seek pd)) i) i → x ∈ arr.set i (s.seek pd) :=
           fun x hx => mem_swapRemove ((restoreOrdering_perm _ _).subset hx)
         have hl2 := lenSum_swapRemove hget'
-        refine ⟨fun x hx => hwf' x (hsub x hx), fun x hx => hj' x (hsub x hx), ?_, ?_, fun _ => ⟨?_, ?_⟩⟩
+        refine ⟨fun x hx => hwf' x (hsub x hx), fun x hx => hj' x (hsub x hx), ?_, ?_, (fun _ => ⟨?_, ?_⟩), fun hb => by cases hb⟩
         · intro d
           rw [massLe_perm (restoreOrdering_perm _ _) d]
           exact Nat.le_trans (massLe_swapRemove_le hget' d) (hmass' d)
@@ -154,7 +157,7 @@ theorem align_total (pd : Nat) (hpd : pd < T) : ∀ (i : Nat) (arr : List S), i 
         · rw [lenSum_perm (restoreOrdering_perm _ _)]; omega
       · have hsub : ∀ x, x ∈ restoreOrdering (arr.set i (s.seek pd)) i → x ∈ arr.set i (s.seek pd) :=
           fun x hx => (restoreOrdering_perm _ _).subset hx
-        refine ⟨fun x hx => hwf' x (hsub x hx), fun x hx => hj' x (hsub x hx), ?_, ?_, fun _ => ⟨?_, ?_⟩⟩
+        refine ⟨fun x hx => hwf' x (hsub x hx), fun x hx => hj' x (hsub x hx), ?_, ?_, (fun _ => ⟨?_, ?_⟩), fun hb => by cases hb⟩
         · intro d; rw [massLe_perm (restoreOrdering_perm _ _) d]; exact hmass' d
         · rw [lenSum_perm (restoreOrdering_perm _ _)]; omega
         · exact set_restore_sorted arr hs i s _ hget h1
@@ -164,7 +167,7 @@ theorem align_total (pd : Nat) (hpd : pd < T) : ∀ (i : Nat) (arr : List S), i 
       have hs' : SortedByDoc (arr.set i (s.seek pd)) :=
         set_sorted hs i s _ hget h1 fun y hy => by
           rw [heq]; exact hdrop y hy
-      obtain ⟨r1, r2, r3, r4, r5⟩ := align_total pd hpd i (arr.set i (s.seek pd)) (by simp; omega) hs' hwf' hj'
+      obtain ⟨r1, r2, r3, r4, r5, r6⟩ := align_total pd hpd i (arr.set i (s.seek pd)) (by simp; omega) hs' hwf' hj'
         (fun y hy => by
           rw [take_set_of_le (Nat.le_refl _)] at hy
           exact htake y ((take_sublist_take_left (Nat.le_succ i)).subset hy))
@@ -174,8 +177,24 @@ theorem align_total (pd : Nat) (hpd : pd < T) : ∀ (i : Nat) (arr : List S), i 
           · omega
           · exact hdrop y hy)
         arr2 b h
-      refine ⟨r1, r2, fun d => Nat.le_trans (r3 d) (hmass' d), by omega, fun hb => ?_⟩
-      obtain ⟨q1, q2⟩ := r5 hb
-      exact ⟨q1, by omega⟩
+      refine ⟨r1, r2, fun d => Nat.le_trans (r3 d) (hmass' d), by omega, (fun hb => ?_), fun hb => ?_⟩
+      · obtain ⟨q1, q2⟩ := r5 hb
+        exact ⟨q1, by omega⟩
+      · obtain ⟨hlen, hpre, hdr⟩ := r6 hb
+        have hget' : (arr.set i (s.seek pd))[i]? = some (s.seek pd) := by
+          rw [getElem?_set_self (by simpa using hlt)]
+        refine ⟨by rw [hlen]; simp, ?_, ?_⟩
+        · intro k hk
+          rcases Nat.lt_or_ge k i with hki | hki
+          · exact hpre k hki
+          · have hk' : k = i := by omega
+            subst hk'
+            refine ⟨s.seek pd, ?_, heq⟩
+            have : arr2[k]? = (arr2.drop k)[0]? := by simp
+            rw [this, hdr]; simp [hget']
+        · have : arr2.drop (i + 1) = (arr2.drop i).drop 1 := by simp
+          rw [this, hdr]
+          simp only [drop_drop]
+          exact drop_set_of_lt (by omega)
 
 end TantivyModel.BlockWand
